@@ -11,6 +11,11 @@ from common import q
 
 DIM = {"x": 2, "y": 1, "z": 3, "t": 1, "D": 1, "s": 1}
 
+# A harness may realise a multi-dimensional variable as a product of 1-D variables (e.g. 'x' as R1('xa')*R1('xb')):
+# set SPLIT_VARS = {'x': ['xa', 'xb']} around `to_tp` / when building query Points.  The Lean side is unaffected
+# (the model reads the joined coordinates under the name 'x').
+SPLIT_VARS = {}
+
 
 # ---------------------------------------------------------------------------------------------
 # parameter terms
@@ -71,8 +76,11 @@ def pt_eval(t, env):
 class PF:
     """a domain parameter: one term per component"""
 
-    def __init__(self, terms):
+    def __init__(self, terms, defaulted=None):
         self.terms = list(terms)
+        # name of a variable that the generated Python function declares WITH a (bogus) default value;
+        # the data always supplies it, so the supplied value must win (opt-in: Gen(p_default=...))
+        self.defaulted = defaulted
 
     def vars(self):
         out = []
@@ -101,7 +109,13 @@ class PF:
         import torch
         first = f"{vs[0]}[:, :1]"
         comps = [pt_py(t) if pt_vars(t) else f"torch.full_like({first}, {float(pt_eval(t, {}))!r})" for t in self.terms]
-        src = f"def _f({', '.join(vs)}):\n    return torch.column_stack([{', '.join(comps)}])\n"
+        if self.defaulted in vs and len(vs) >= 2:
+            # Python requires defaulted parameters last; the first variable stays required (it sizes constants)
+            vs = [x for x in vs if x != self.defaulted] + [self.defaulted]
+            sig = ", ".join(vs[:-1]) + f", {self.defaulted}=torch.full((1, 1), 7.25)"
+        else:
+            sig = ", ".join(vs)
+        src = f"def _f({sig}):\n    return torch.column_stack([{', '.join(comps)}])\n"
         ns = {"torch": torch}
         exec(src, ns)
         f = ns["_f"]
@@ -109,7 +123,10 @@ class PF:
         return f
 
     def describe(self):
-        return [pt_tokens(t) for t in self.terms]
+        d = [pt_tokens(t) for t in self.terms]
+        if self.defaulted:
+            d.append("default " + self.defaulted)
+        return d
 
 
 # ---------------------------------------------------------------------------------------------
@@ -138,6 +155,11 @@ class Node:
     def space(self, tp):
         sp = None
         for name in self.vars():
+            if name in SPLIT_VARS:
+                for part in SPLIT_VARS[name]:
+                    s = tp.spaces.R1(part)
+                    sp = s if sp is None else sp * s
+                continue
             s = {1: tp.spaces.R1, 2: tp.spaces.R2, 3: tp.spaces.R3}[DIM[name]](name)
             sp = s if sp is None else sp * s
         return sp
@@ -235,7 +257,10 @@ def parse_pt(toks):
 
 
 def from_json(d):
-    pfs = [PF([parse_pt(s.split()) for s in terms]) for terms in d["pfs"]]
+    pfs = []
+    for terms in d["pfs"]:
+        dflt = [t.split()[1] for t in terms if t.startswith("default ")]
+        pfs.append(PF([parse_pt(s.split()) for s in terms if not s.startswith("default ")], dflt[0] if dflt else None))
     return Node(d["kind"], d["var"], pfs, [from_json(k) for k in d["kids"]], d.get("flags"))
 
 
@@ -249,9 +274,10 @@ def dy(rng, lo, hi, den=8):
 class Gen:
     """params: names of scalar parameter variables the expression may depend on (values in [0, 1])"""
 
-    def __init__(self, rng, params=("t",), p_dep=0.4, allow_rotate=True, allow_translate=True):
+    def __init__(self, rng, params=("t",), p_dep=0.4, allow_rotate=True, allow_translate=True, p_default=0.0):
         self.rng, self.params, self.p_dep = rng, list(params), p_dep
         self.allow_rotate, self.allow_translate = allow_rotate, allow_translate
+        self.p_default = p_default
 
     def aff(self, base, spread=1):
         """constant, or base + a*param with small dyadic a (parameter-dependent)"""
@@ -260,7 +286,14 @@ class Gen:
             p = rng.choice(self.params)
             a = dy(rng, -spread, spread, 4)
             if a != 0:
-                return ("+", c(base), ("*", c(a), v(p)))
+                t = ("+", c(base), ("*", c(a), v(p)))
+                if self.p_default and len(self.params) >= 2 and rng.random() < 0.5:
+                    # a second parameter in the same function (so that one of them can be declared with a default)
+                    p2 = rng.choice([x for x in self.params if x != p])
+                    a2 = dy(rng, -spread, spread, 4)
+                    if a2 != 0:
+                        t = ("+", t, ("*", c(a2), v(p2)))
+                return t
         return c(base)
 
     def pos_aff(self, base):
@@ -273,8 +306,15 @@ class Gen:
                 return ("+", c(base), ("*", c(a), v(p)))
         return c(base)
 
+    def _dflt(self, pf):
+        """opt-in: declare one of >= 2 variables of the generated function with a default value"""
+        vs = pf.vars()
+        if self.p_default and len(vs) >= 2 and self.rng.random() < self.p_default:
+            pf.defaulted = self.rng.choice(vs[1:])
+        return pf
+
     def vec(self, base, spread=1):
-        return PF([self.aff(b, spread) for b in base])
+        return self._dflt(PF([self.aff(b, spread) for b in base]))
 
     def prim2(self, var="x"):
         rng = self.rng
@@ -291,8 +331,8 @@ class Gen:
         # both orientations occur; a shared parameter-dependent shift keeps the shape non-degenerate
         shift = [self.aff(0), self.aff(0)]
         def corner(pt):
-            return PF([("+", c(pt[0]), shift[0]) if shift[0] != c(0) else c(pt[0]),
-                       ("+", c(pt[1]), shift[1]) if shift[1] != c(0) else c(pt[1])])
+            return self._dflt(PF([("+", c(pt[0]), shift[0]) if shift[0] != c(0) else c(pt[0]),
+                                  ("+", c(pt[1]), shift[1]) if shift[1] != c(0) else c(pt[1])]))
         c1 = [o[0] + d1[0], o[1] + d1[1]]
         c2 = [o[0] + d2[0], o[1] + d2[1]]
         return Node(kind, var, [corner(o), corner(c1), corner(c2)])
@@ -302,7 +342,7 @@ class Gen:
         lb = dy(rng, -2, 1)
         w = dy(rng, 0.5, 3)
         lo = self.aff(lb)
-        return Node("interval", var, [PF([lo]), PF([("+", lo, self.pos_aff(w))])])
+        return Node("interval", var, [PF([lo]), self._dflt(PF([("+", lo, self.pos_aff(w))]))])
 
     def prim3(self, var="z"):
         rng = self.rng
